@@ -242,6 +242,19 @@ Definition wal_recover (w : walst) := mkWal (wal_all w) [].
 
 Inductive status := Running | Down | Decided.
 
+(* ghost log of the decisions that matter for agreement (C01), each with the
+   evidence the engine acted on (the vote set it looked at).  Not an output:
+   nothing here influences the engine. *)
+Inductive gev :=
+| GVote (r : Z) (t : vtype) (d : option N) (lk : option (Z * N))
+    (* the engine sends its vote (r, t, d); lk = (lockedRound, locked block) at that moment *)
+| GLock (r : Z) (b : N) (ev : vset)
+    (* lockedRound / lockedBlockParts := (r, b), on the prevotes ev of round r *)
+| GUnlock (lr : Z) (b : N) (r : Z) (w : option N) (ev : vset)
+    (* the lock (lr, b) is dropped, on the prevotes ev of round r that hold +2/3 for w *)
+| GCommit (b : N) (r : Z) (ev : vset).
+    (* enterCommit for block b, on the precommits ev of round r *)
+
 (* messages signed by this validator that went out to the network (ghost
    history: survives crashes; the number is the emission counter, so two
    separate emissions are always two different entries) *)
@@ -269,31 +282,36 @@ Record st := mkSt {
   nsent : nat;
   outs : list out;                    (* outputs of the current event *)
   fuse : option nat;                  (* outputs left before the crash point *)
-  decided : option N
+  decided : option N;
+  glog : list gev                     (* ghost *)
 }.
 
 Definition init : st :=
   mkSt Down 0 SNewHeight (-1) None (-1) None [] (-1) [] false None None None
-       wal_empty wal_empty wal_empty [] O [] None None.
+       wal_empty wal_empty wal_empty [] O [] None None [].
 
 (* record update helpers *)
-Definition set_status x s := mkSt x (round s) (stp s) (locked_round s) (locked s) (pol_round s) (cur s) (hvs s) (commit_round s) (bpm s) (timer s) (prop_req s) (imp_req s) (commit_req s) (wal_r s) (wal_l s) (wal_c s) (sent s) (nsent s) (outs s) (fuse s) (decided s).
-Definition set_round x s := mkSt (status_ s) x (stp s) (locked_round s) (locked s) (pol_round s) (cur s) (hvs s) (commit_round s) (bpm s) (timer s) (prop_req s) (imp_req s) (commit_req s) (wal_r s) (wal_l s) (wal_c s) (sent s) (nsent s) (outs s) (fuse s) (decided s).
-Definition set_stp x s := mkSt (status_ s) (round s) x (locked_round s) (locked s) (pol_round s) (cur s) (hvs s) (commit_round s) (bpm s) (timer s) (prop_req s) (imp_req s) (commit_req s) (wal_r s) (wal_l s) (wal_c s) (sent s) (nsent s) (outs s) (fuse s) (decided s).
-Definition set_lock lr l s := mkSt (status_ s) (round s) (stp s) lr l (pol_round s) (cur s) (hvs s) (commit_round s) (bpm s) (timer s) (prop_req s) (imp_req s) (commit_req s) (wal_r s) (wal_l s) (wal_c s) (sent s) (nsent s) (outs s) (fuse s) (decided s).
-Definition set_pol x s := mkSt (status_ s) (round s) (stp s) (locked_round s) (locked s) x (cur s) (hvs s) (commit_round s) (bpm s) (timer s) (prop_req s) (imp_req s) (commit_req s) (wal_r s) (wal_l s) (wal_c s) (sent s) (nsent s) (outs s) (fuse s) (decided s).
-Definition set_cur x s := mkSt (status_ s) (round s) (stp s) (locked_round s) (locked s) (pol_round s) x (hvs s) (commit_round s) (bpm s) (timer s) (prop_req s) (imp_req s) (commit_req s) (wal_r s) (wal_l s) (wal_c s) (sent s) (nsent s) (outs s) (fuse s) (decided s).
-Definition set_hvs x s := mkSt (status_ s) (round s) (stp s) (locked_round s) (locked s) (pol_round s) (cur s) x (commit_round s) (bpm s) (timer s) (prop_req s) (imp_req s) (commit_req s) (wal_r s) (wal_l s) (wal_c s) (sent s) (nsent s) (outs s) (fuse s) (decided s).
-Definition set_commit_round x s := mkSt (status_ s) (round s) (stp s) (locked_round s) (locked s) (pol_round s) (cur s) (hvs s) x (bpm s) (timer s) (prop_req s) (imp_req s) (commit_req s) (wal_r s) (wal_l s) (wal_c s) (sent s) (nsent s) (outs s) (fuse s) (decided s).
-Definition set_bpm x s := mkSt (status_ s) (round s) (stp s) (locked_round s) (locked s) (pol_round s) (cur s) (hvs s) (commit_round s) x (timer s) (prop_req s) (imp_req s) (commit_req s) (wal_r s) (wal_l s) (wal_c s) (sent s) (nsent s) (outs s) (fuse s) (decided s).
-Definition set_timer x s := mkSt (status_ s) (round s) (stp s) (locked_round s) (locked s) (pol_round s) (cur s) (hvs s) (commit_round s) (bpm s) x (prop_req s) (imp_req s) (commit_req s) (wal_r s) (wal_l s) (wal_c s) (sent s) (nsent s) (outs s) (fuse s) (decided s).
-Definition set_prop_req x s := mkSt (status_ s) (round s) (stp s) (locked_round s) (locked s) (pol_round s) (cur s) (hvs s) (commit_round s) (bpm s) (timer s) x (imp_req s) (commit_req s) (wal_r s) (wal_l s) (wal_c s) (sent s) (nsent s) (outs s) (fuse s) (decided s).
-Definition set_imp_req x s := mkSt (status_ s) (round s) (stp s) (locked_round s) (locked s) (pol_round s) (cur s) (hvs s) (commit_round s) (bpm s) (timer s) (prop_req s) x (commit_req s) (wal_r s) (wal_l s) (wal_c s) (sent s) (nsent s) (outs s) (fuse s) (decided s).
-Definition set_commit_req x s := mkSt (status_ s) (round s) (stp s) (locked_round s) (locked s) (pol_round s) (cur s) (hvs s) (commit_round s) (bpm s) (timer s) (prop_req s) (imp_req s) x (wal_r s) (wal_l s) (wal_c s) (sent s) (nsent s) (outs s) (fuse s) (decided s).
-Definition set_wals r l c s := mkSt (status_ s) (round s) (stp s) (locked_round s) (locked s) (pol_round s) (cur s) (hvs s) (commit_round s) (bpm s) (timer s) (prop_req s) (imp_req s) (commit_req s) r l c (sent s) (nsent s) (outs s) (fuse s) (decided s).
-Definition set_sent x k s := mkSt (status_ s) (round s) (stp s) (locked_round s) (locked s) (pol_round s) (cur s) (hvs s) (commit_round s) (bpm s) (timer s) (prop_req s) (imp_req s) (commit_req s) (wal_r s) (wal_l s) (wal_c s) x k (outs s) (fuse s) (decided s).
-Definition set_outs x f s := mkSt (status_ s) (round s) (stp s) (locked_round s) (locked s) (pol_round s) (cur s) (hvs s) (commit_round s) (bpm s) (timer s) (prop_req s) (imp_req s) (commit_req s) (wal_r s) (wal_l s) (wal_c s) (sent s) (nsent s) x f (decided s).
-Definition set_decided x s := mkSt (status_ s) (round s) (stp s) (locked_round s) (locked s) (pol_round s) (cur s) (hvs s) (commit_round s) (bpm s) (timer s) (prop_req s) (imp_req s) (commit_req s) (wal_r s) (wal_l s) (wal_c s) (sent s) (nsent s) (outs s) (fuse s) x.
+Definition set_status x s := mkSt x (round s) (stp s) (locked_round s) (locked s) (pol_round s) (cur s) (hvs s) (commit_round s) (bpm s) (timer s) (prop_req s) (imp_req s) (commit_req s) (wal_r s) (wal_l s) (wal_c s) (sent s) (nsent s) (outs s) (fuse s) (decided s) (glog s).
+Definition set_round x s := mkSt (status_ s) x (stp s) (locked_round s) (locked s) (pol_round s) (cur s) (hvs s) (commit_round s) (bpm s) (timer s) (prop_req s) (imp_req s) (commit_req s) (wal_r s) (wal_l s) (wal_c s) (sent s) (nsent s) (outs s) (fuse s) (decided s) (glog s).
+Definition set_stp x s := mkSt (status_ s) (round s) x (locked_round s) (locked s) (pol_round s) (cur s) (hvs s) (commit_round s) (bpm s) (timer s) (prop_req s) (imp_req s) (commit_req s) (wal_r s) (wal_l s) (wal_c s) (sent s) (nsent s) (outs s) (fuse s) (decided s) (glog s).
+Definition set_lock lr l s := mkSt (status_ s) (round s) (stp s) lr l (pol_round s) (cur s) (hvs s) (commit_round s) (bpm s) (timer s) (prop_req s) (imp_req s) (commit_req s) (wal_r s) (wal_l s) (wal_c s) (sent s) (nsent s) (outs s) (fuse s) (decided s) (glog s).
+Definition set_pol x s := mkSt (status_ s) (round s) (stp s) (locked_round s) (locked s) x (cur s) (hvs s) (commit_round s) (bpm s) (timer s) (prop_req s) (imp_req s) (commit_req s) (wal_r s) (wal_l s) (wal_c s) (sent s) (nsent s) (outs s) (fuse s) (decided s) (glog s).
+Definition set_cur x s := mkSt (status_ s) (round s) (stp s) (locked_round s) (locked s) (pol_round s) x (hvs s) (commit_round s) (bpm s) (timer s) (prop_req s) (imp_req s) (commit_req s) (wal_r s) (wal_l s) (wal_c s) (sent s) (nsent s) (outs s) (fuse s) (decided s) (glog s).
+Definition set_hvs x s := mkSt (status_ s) (round s) (stp s) (locked_round s) (locked s) (pol_round s) (cur s) x (commit_round s) (bpm s) (timer s) (prop_req s) (imp_req s) (commit_req s) (wal_r s) (wal_l s) (wal_c s) (sent s) (nsent s) (outs s) (fuse s) (decided s) (glog s).
+Definition set_commit_round x s := mkSt (status_ s) (round s) (stp s) (locked_round s) (locked s) (pol_round s) (cur s) (hvs s) x (bpm s) (timer s) (prop_req s) (imp_req s) (commit_req s) (wal_r s) (wal_l s) (wal_c s) (sent s) (nsent s) (outs s) (fuse s) (decided s) (glog s).
+Definition set_bpm x s := mkSt (status_ s) (round s) (stp s) (locked_round s) (locked s) (pol_round s) (cur s) (hvs s) (commit_round s) x (timer s) (prop_req s) (imp_req s) (commit_req s) (wal_r s) (wal_l s) (wal_c s) (sent s) (nsent s) (outs s) (fuse s) (decided s) (glog s).
+Definition set_timer x s := mkSt (status_ s) (round s) (stp s) (locked_round s) (locked s) (pol_round s) (cur s) (hvs s) (commit_round s) (bpm s) x (prop_req s) (imp_req s) (commit_req s) (wal_r s) (wal_l s) (wal_c s) (sent s) (nsent s) (outs s) (fuse s) (decided s) (glog s).
+Definition set_prop_req x s := mkSt (status_ s) (round s) (stp s) (locked_round s) (locked s) (pol_round s) (cur s) (hvs s) (commit_round s) (bpm s) (timer s) x (imp_req s) (commit_req s) (wal_r s) (wal_l s) (wal_c s) (sent s) (nsent s) (outs s) (fuse s) (decided s) (glog s).
+Definition set_imp_req x s := mkSt (status_ s) (round s) (stp s) (locked_round s) (locked s) (pol_round s) (cur s) (hvs s) (commit_round s) (bpm s) (timer s) (prop_req s) x (commit_req s) (wal_r s) (wal_l s) (wal_c s) (sent s) (nsent s) (outs s) (fuse s) (decided s) (glog s).
+Definition set_commit_req x s := mkSt (status_ s) (round s) (stp s) (locked_round s) (locked s) (pol_round s) (cur s) (hvs s) (commit_round s) (bpm s) (timer s) (prop_req s) (imp_req s) x (wal_r s) (wal_l s) (wal_c s) (sent s) (nsent s) (outs s) (fuse s) (decided s) (glog s).
+Definition set_wals r l c s := mkSt (status_ s) (round s) (stp s) (locked_round s) (locked s) (pol_round s) (cur s) (hvs s) (commit_round s) (bpm s) (timer s) (prop_req s) (imp_req s) (commit_req s) r l c (sent s) (nsent s) (outs s) (fuse s) (decided s) (glog s).
+Definition set_sent x k s := mkSt (status_ s) (round s) (stp s) (locked_round s) (locked s) (pol_round s) (cur s) (hvs s) (commit_round s) (bpm s) (timer s) (prop_req s) (imp_req s) (commit_req s) (wal_r s) (wal_l s) (wal_c s) x k (outs s) (fuse s) (decided s) (glog s).
+Definition set_outs x f s := mkSt (status_ s) (round s) (stp s) (locked_round s) (locked s) (pol_round s) (cur s) (hvs s) (commit_round s) (bpm s) (timer s) (prop_req s) (imp_req s) (commit_req s) (wal_r s) (wal_l s) (wal_c s) (sent s) (nsent s) x f (decided s) (glog s).
+Definition set_decided x s := mkSt (status_ s) (round s) (stp s) (locked_round s) (locked s) (pol_round s) (cur s) (hvs s) (commit_round s) (bpm s) (timer s) (prop_req s) (imp_req s) (commit_req s) (wal_r s) (wal_l s) (wal_c s) (sent s) (nsent s) (outs s) (fuse s) x (glog s).
+
+Definition set_glog x s := mkSt (status_ s) (round s) (stp s) (locked_round s) (locked s) (pol_round s) (cur s) (hvs s) (commit_round s) (bpm s) (timer s) (prop_req s) (imp_req s) (commit_req s) (wal_r s) (wal_l s) (wal_c s) (sent s) (nsent s) (outs s) (fuse s) (decided s) x.
+Definition glog_add (e : gev) (s : st) : st := set_glog (glog s ++ [e]) s.
+Definition lock_of (s : st) : option (Z * N) := option_map (fun p => (locked_round s, p_id p)) (locked s).
 
 (* the process has passed its crash point in this event *)
 Definition blown (s : st) : bool := match fuse s with Some O => true | _ => false end.
@@ -413,6 +431,13 @@ Section Engine.
 
   Definition unlock (s : st) : st := set_lock (-1) None s.
 
+  (* unlock, noting in the ghost log which lock was dropped and on what evidence *)
+  Definition unlock_on (r : Z) (w : option N) (ev : vset) (s : st) : st :=
+    match locked s with
+    | Some l => unlock (glog_add (GUnlock (locked_round s) (p_id l) r w ev) s)
+    | None => unlock s
+    end.
+
   Definition own_vote (s : st) (t : vtype) (d : option N) : vote := mkVote own (round s) t d 0%N.
 
   (* doSendProposal *)
@@ -461,7 +486,7 @@ Section Engine.
                        | Some d =>
                            let s := if Z.ltb (locked_round s) r
                                        && match locked s with Some l => negb (dec_eqb (Some (p_id l)) d) | None => false end
-                                    then unlock s else s in
+                                    then unlock_on r d votes s else s in
                            match d with
                            | Some b => if Z.eqb (round s) r then set_by_psid b s else s
                            | None => s
@@ -498,6 +523,7 @@ Section Engine.
       | ASendVote t d =>
           if Z.ltb own 0 || Z.leb (Z.of_nat n) own then s else
           let v := own_vote s t d in
+          let s := glog_add (GVote (round s) t d (lock_of s)) s in
           let s := emit (OWrite WRound (RVote v)) s in
           let s := emit (OSync WRound) s in
           let s := emit (OSendVote v) s in
@@ -573,21 +599,21 @@ Section Engine.
                 then run f AEnterPrecommitWait s else s in
               match vs_over23 pv with
               | None => tail (run f (ASendVote Precommit None) s)
-              | Some None => tail (run f (ASendVote Precommit None) (unlock s))
+              | Some None => tail (run f (ASendVote Precommit None) (unlock_on (round s) None pv s))
               | Some (Some b) =>
                   if bps_id_is (locked s) b then
                     (* "update lock round": the lock WAL gets the new round as well *)
-                    let s := set_lock (round s) (locked s) s in
+                    let s := set_lock (round s) (locked s) (glog_add (GLock (round s) b pv) s) in
                     let s := write_lock_wal pv b s in
                     tail (run f (ASendVote Precommit (Some b)) s)
                   else if bps_id_is (cur s) b && cur_hasblock s then
-                    let s := set_lock (round s) (cur s) s in
+                    let s := set_lock (round s) (cur s) (glog_add (GLock (round s) b pv) s) in
                     let s := write_lock_wal pv b s in
                     tail (run f (ASendVote Precommit (Some b)) s)
                   else if bps_id_is (cur s) b && cur_complete s then panic s
                   else
                     let s := set_by_psid b s in
-                    tail (run f (ASendVote Precommit None) (unlock s))
+                    tail (run f (ASendVote Precommit None) (unlock_on (round s) (Some b) pv s))
               end
           | _ => s
           end
@@ -613,6 +639,7 @@ Section Engine.
           match status_ s with
           | Running =>
               let s := set_commit_round r s in
+              let s := glog_add (GCommit b r (votes_for s r Precommit)) s in
               let s := emit (OWrite WCommit (RVoteList (vs_list (votes_for s r Precommit)))) s in
               let s := emit (OSync WCommit) s in
               let s := set_by_psid b s in
@@ -842,7 +869,7 @@ Section Engine.
     let s0 := mkSt Running (fst rs) (snd rs)
                    (match lk with Some (_, lr) => lr | None => (-1) end)
                    (option_map fst lk) (-1) (option_map fst lk) h (-1) [] false None None None
-                   wr wl wc (sent s) (nsent s) (outs s) (fuse s) (decided s) in
+                   wr wl wc (sent s) (nsent s) (outs s) (fuse s) (decided s) (glog s) in
     if negb ok then panic s0 else
     match last with
     | Some (b, _) => if negb (decodable b) then panic s0 else
